@@ -50,6 +50,8 @@ def run(repo, rep):
         raise AnalysisError("fewer than 3 len() tests of consumer lists found")
     rep.clause("C12-m", "pass packing: a CPU pass holds one main operator (tensors between operators of one pass are never allocated) [automaton shared with C03-k]")
     pass_packing_automaton(repo, rep, "C12-m")
+    rep.clause("C12-n", "tensors between the operators of a multi-operator CPU pass get a live range (intermediates of its cascaded pass)")
+    rule_cpu_pass_intermediates(repo, rep)
     rep.run_borrowed(c11, {"C11-b": "C12-a"}, repo, only_sites=("data_type",))
     rule_round5(repo, rep)
     rule_subgraph_refs(repo, rep)
@@ -393,3 +395,19 @@ def rule_cascade_slot(repo, rep):
     rep.check(slot is not None and v == slot and slot in marked, "C12-k", site, f"time_for_cascade[cascade] = {slot}: the slot the operator's tensors were marked with",
               f"`{str(norm(stores[0]))}`: later operators of the cascade get a slot of their own; cascade input and output are no longer live together and the allocator puts the output on the input "
               "(output stripes overwrite input rows that later stripes still read)")
+
+
+def rule_cpu_pass_intermediates(repo, rep):
+    """(n) a CPU / MemoryOnly pass may hold several operators (chained memory-only operators). The cascaded pass that scheduler.
+    schedule_passes builds for it is what the live-range extraction sees: tensors between the operators of the pass are handed over as
+    its intermediates (an empty list leaves them without a live range: written with offset 0, on top of whatever lives there)."""
+    sch = repo.mod("scheduler")
+    f = sch.func("schedule_passes")
+    site = "ethosu/vela/scheduler.py:schedule_passes"
+    calls = [c for c in ast.walk(f) if isinstance(c, ast.Call) and call_name(c) == "CascadedPass" and len(c.args) >= 6 and "ps.outputs" in str(norm(c.args[4]))]
+    if len(calls) != 1:
+        raise AnalysisError(f"schedule_passes: {len(calls)} cascaded passes built for CPU passes")
+    arg = calls[0].args[3]
+    empty = isinstance(arg, (ast.List, ast.Tuple)) and not arg.elts
+    rep.check(not empty, "C12-n", site, "the cascaded pass of a CPU pass lists the tensors between the pass's operators as intermediates",
+              "`CascadedPass(.., [], ps.outputs, ..)`: two consecutive CPU RESHAPEs are packed into one MemoryOnly pass; the tensor between them gets no live range and offset 0: it overlaps the live graph input 'keep' [0,4096)")
